@@ -396,3 +396,27 @@ Fixpoint bare_schema (t : tstruct) : str :=
   | TsArr i => L "z.array(" ++ bare_schema i ++ L ")"
   | TsCustom n => n ++ L "Schema"
   end.
+
+(* ------------------------------------------------------------------ value of a Rust string literal (the subset
+   outside class C11-6: ordinary literal; escapes: backslash followed by double quote, single quote, n, t, backslash) - used to state that the declared
+   literal text and the declared message value belong together *)
+Fixpoint rust_body_value (s : str) : option str :=
+  match s with
+  | [] => None                                           (* no closing quote *)
+  | c :: r =>
+      if Ascii.eqb c dq then (match r with [] => Some [] | _ => None end)
+      else if Ascii.eqb c bs then
+        match r with
+        | e :: r' =>
+            let x := if Ascii.eqb e dq then Some dq else if Ascii.eqb e sq then Some sq else if Ascii.eqb e "n" then Some nl
+                     else if Ascii.eqb e "t" then Some tab else if Ascii.eqb e bs then Some bs else None in
+            match x, rust_body_value r' with Some x, Some v => Some (x :: v) | _, _ => None end
+        | [] => None end
+      else option_map (fun v => c :: v) (rust_body_value r)
+  end.
+Definition rust_lit_value (lit : str) : option str :=
+  match lit with q :: body => if Ascii.eqb q dq then rust_body_value body else None | [] => None end.
+Definition arg_consistent (a : arg) : bool :=
+  match a with AMsg lit v => match rust_lit_value lit with Some v' => str_eqb v v' | None => false end | _ => true end.
+Definition lits_consistent (f : field) : bool :=
+  forallb (fun i => forallb arg_consistent (item_args i) && forallb arg_consistent (flag_args i)) (field_items f).
